@@ -643,7 +643,7 @@ func c09FileHex(c *blob.DiskCache, d blob.Digest) string {
 	return zzverif.Hex(b)
 }
 
-func c09PullCase(t *testing.T, out *zzverif.Out, rng *zzverif.Rng, dir string, tag string, linkShortcut, verify bool) {
+func c09PullCase(t *testing.T, out *zzverif.Out, rng *zzverif.Rng, dir string, tag string, linkShortcut, verify, staged bool) {
 	g := &c09Gen{rng: rng, out: out, cuts: map[string][]int64{}, manifests: map[string]*c09Manifest{}}
 	g.thr = int64(zzverif.Pick(rng, []int{2, 3, 4, 6}))
 	g.streams = zzverif.Pick(rng, []int{1, 1, 2, 2, 3, -1, -1})
@@ -700,12 +700,49 @@ func c09PullCase(t *testing.T, out *zzverif.Out, rng *zzverif.Rng, dir string, t
 	var l2s [][2]string
 	failedWhileFetching := map[blob.Digest]bool{}
 
+	// history mode "size lie after link": attempt 0 pulls and links an honest manifest without
+	// faults; attempt 1 (same or other name, any faults) is served a manifest that declares one of
+	// its digests with ANOTHER size (F10d: the download must not touch the verified blob).
+	lieAfterLink := !beyondThenHonest && rng.Chance(1, 8)
+	var lieLayers []c09Layer
+	if lieAfterLink {
+		if nattempts < 2 {
+			nattempts = 2
+		}
+		x := g.content()
+		if len(x) == 0 {
+			x = rng.Bytes(rng.Range(1, 8))
+			g.pool = append(g.pool, x)
+			trueLen[c09Dig(x)] = int64(len(x))
+		}
+		current["m0"] = g.manifestOf([]c09Layer{{pre: x, size: int64(len(x))}}, nil, 0)
+		lie := int64(rng.Range(1, 9))
+		if lie == int64(len(x)) {
+			lie++
+		}
+		lieLayers = []c09Layer{{pre: x, size: lie}}
+		if rng.Bool() {
+			o := g.content()
+			if !bytes.Equal(o, x) {
+				lieLayers = append(lieLayers, c09Layer{pre: o, size: int64(len(o))})
+			}
+		}
+		out.Count("hist_size_lie_after_link")
+	}
+
 	for at := 0; at < nattempts; at++ {
+		calm := beyondThenHonest || (lieAfterLink && at == 0)
 		model := names[0]
-		if rng.Chance(1, 5) && !beyondThenHonest {
+		if rng.Chance(1, 5) && !calm {
 			model = names[1]
 		}
+		if lieAfterLink && at == 1 {
+			current[model] = g.manifestOf(lieLayers, nil, rng.Intn(3))
+		}
 		g.force = ""
+		if lieAfterLink && at == 0 {
+			g.force = "honest"
+		}
 		if beyondThenHonest {
 			g.force = "honest"
 			if at == 0 {
@@ -716,12 +753,12 @@ func c09PullCase(t *testing.T, out *zzverif.Out, rng *zzverif.Rng, dir string, t
 		if model == "m1" {
 			nameIdx = 1
 		}
-		if current[model] == nil || (rng.Chance(1, 4) && !beyondThenHonest) {
+		if current[model] == nil || (rng.Chance(1, 4) && !calm && !(lieAfterLink && at == 1)) {
 			current[model] = g.genManifest()
 		}
 		m := current[model]
 		manKind := "ok"
-		if rng.Chance(1, 12) && !beyondThenHonest {
+		if rng.Chance(1, 12) && !calm && !(lieAfterLink && at == 1) {
 			manKind = zzverif.Pick(rng, []string{"status500", "status404", "unknown", "transport", "badjson"})
 		}
 		out.Count("manifest_" + manKind)
@@ -791,7 +828,7 @@ func c09PullCase(t *testing.T, out *zzverif.Out, rng *zzverif.Rng, dir string, t
 			ChunkingThreshold: g.thr}
 		linkBefore := c09ReadLink(dir, model)
 		faultRate := zzverif.Pick(rng, []int{0, 1, 1, 3, 6}) // out of 10
-		if beyondThenHonest {
+		if calm {
 			faultRate = 0
 		}
 		// which linked blobs are good before this attempt (to recognise in-place damage, F10d)
@@ -832,7 +869,7 @@ func c09PullCase(t *testing.T, out *zzverif.Out, rng *zzverif.Rng, dir string, t
 					t.Fatalf("c09: client neither finished nor waiting (case %s)", tag)
 				}
 				counts = append(counts, strconv.Itoa(len(w)))
-				if rng.Chance(1, 30) && !beyondThenHonest {
+				if rng.Chance(1, 30) && !calm {
 					steps = append(steps, "cancel")
 					out.Count("step_cancel")
 					cancel()
@@ -903,7 +940,22 @@ func c09PullCase(t *testing.T, out *zzverif.Out, rng *zzverif.Rng, dir string, t
 				files = append(files, c09FileHex(c, l.dig()))
 			}
 		}
-		impls = append(impls, fmt.Sprintf("%s n=%s link=%s files=%s", cls, strings.Join(counts, "."), link, strings.Join(files, ",")))
+		var stage []string
+		if manKind == "ok" {
+			for _, l := range all {
+				b, err := os.ReadFile(c.GetFile(l.dig()) + "-chunked")
+				if err != nil {
+					stage = append(stage, "-")
+				} else {
+					stage = append(stage, zzverif.Hex(b))
+					if len(b) > 0 {
+						out.Count("attempt_left_staging_file")
+					}
+				}
+			}
+		}
+		impls = append(impls, fmt.Sprintf("%s n=%s link=%s files=%s stage=%s", cls, strings.Join(counts, "."), link,
+			strings.Join(files, ","), strings.Join(stage, ",")))
 
 		if result != nil {
 			for d, k := range reg.seen {
@@ -970,6 +1022,10 @@ func c09PullCase(t *testing.T, out *zzverif.Out, rng *zzverif.Rng, dir string, t
 					// damaged until some pull fetches it again
 					victim[l.Digest] = true
 					via = "size-lie-overwrote-linked-blob"
+					if staged {
+						// a tree that stages chunked downloads must never damage a verified blob
+						via = "verified-blob-damaged-despite-staging"
+					}
 				case verify:
 					via = "unknown"
 				case f.sizeLie && trueLen[l.Digest] == l.Size:
@@ -1006,7 +1062,11 @@ func c09PullCase(t *testing.T, out *zzverif.Out, rng *zzverif.Rng, dir string, t
 	if verify {
 		vf = 1
 	}
-	op := fmt.Sprintf("pull %d %d %d %d %d %s", g.thr, g.streams, sc, vf, len(ops), strings.Join(ops, " "))
+	sg := 0
+	if staged {
+		sg = 1
+	}
+	op := fmt.Sprintf("pull %d %d %d %d %d %d %s", g.thr, g.streams, sc, vf, sg, len(ops), strings.Join(ops, " "))
 	out.Case(op, strings.Join(impls, " | "))
 	seenKind := map[string]bool{}
 	for _, l := range l2s {
@@ -1039,6 +1099,35 @@ func c09ProbeLinkShortcut(t *testing.T) bool {
 	}
 	got, _ := os.ReadFile(filepath.Join(c09DirOf(c), "manifests", "example.com", "library", "p", "latest"))
 	return bytes.Equal(got, a)
+}
+
+type c09ProbeStagedRT struct{}
+
+func (c09ProbeStagedRT) RoundTrip(req *http.Request) (*http.Response, error) {
+	abcd := []byte("abcd")
+	switch {
+	case strings.Contains(req.URL.Path, "/manifests/"):
+		return c09Resp(req, 200, c09Str(fmt.Sprintf(`{"layers":[{"digest":"%s","size":4}]}`, c09Dig(abcd))), nil), nil
+	case strings.Contains(req.URL.Path, "/chunksums/"):
+		body := fmt.Sprintf("%s 0-1\n%s 2-3\n", c09Dig(abcd[:2]), c09Dig(abcd[2:]))
+		return c09Resp(req, 200, c09Str(body), map[string]string{"Content-Location": "http://blobs.example.com/v2/library/x/blobs/" + c09Dig(abcd).String()}), nil
+	case req.Header.Get("Range") == "bytes=0-1":
+		return c09Resp(req, 200, c09Str("ab"), nil), nil
+	}
+	return c09Resp(req, 500, c09Str(c09ErrBody(500)), nil), nil
+}
+
+// c09ProbeStaged lets a chunked pull fail after its first chunk and looks where the bytes went:
+// into the blob file itself, or into the staging file next to it (F10d repaired).
+func c09ProbeStaged(t *testing.T) bool {
+	c, err := blob.Open(t.TempDir())
+	if err != nil {
+		t.Fatal(err)
+	}
+	rc := &Registry{Cache: c, HTTPClient: &http.Client{Transport: c09ProbeStagedRT{}}, MaxStreams: 1, ChunkingThreshold: 2}
+	rc.Pull(context.Background(), "http://example.com/library/probe")
+	_, err = os.Stat(c.GetFile(c09Dig([]byte("abcd"))) + "-chunked")
+	return err == nil
 }
 
 type c09ProbeRT struct{}
@@ -1106,6 +1195,10 @@ func TestVerifC09(t *testing.T) {
 	if verify {
 		out.Count("verify_before_link_present")
 	}
+	staged := c09ProbeStaged(t)
+	if staged {
+		out.Count("staged_chunk_files_present")
+	}
 	root := zzverif.NewRng(seed)
 	base := t.TempDir()
 	pullRoot := root.Fork()
@@ -1118,7 +1211,7 @@ func TestVerifC09(t *testing.T) {
 			continue
 		}
 		dir := filepath.Join(base, fmt.Sprintf("p%d", i))
-		c09PullCase(t, out, rng, dir, fmt.Sprintf("seed=%d kind=pull idx=%d", seed, i), shortcut, verify)
+		c09PullCase(t, out, rng, dir, fmt.Sprintf("seed=%d kind=pull idx=%d", seed, i), shortcut, verify, staged)
 		os.RemoveAll(dir)
 		out.Count("cases")
 		out.Count("pull_cases")
